@@ -470,6 +470,70 @@ func init() {
 	}
 }
 
+func init() {
+	// C15: the OpenAPI document of a service is a function of that service alone: a generator object is built per
+	// service from values only, so nothing mutable can be shared between the documents of one invocation.
+	structuralRules["c15.openapi_isolated"] = func(w *World) []OblResult {
+		var probs []string
+		oa := w.ByName["openapiv3"]
+		valueLike := func(t types.Type) bool {
+			switch u := t.Underlying().(type) {
+			case *types.Basic:
+				return true
+			case *types.Pointer:
+				if n, ok := types.Unalias(u.Elem()).(*types.Named); ok && n.Obj().Pkg() != nil && strings.HasSuffix(n.Obj().Pkg().Path(), "compiler/protogen") {
+					return true // descriptors: immutable
+				}
+			}
+			return false
+		}
+		isGen := func(t types.Type) bool {
+			p, ok := t.(*types.Pointer)
+			if !ok {
+				return false
+			}
+			n, ok := types.Unalias(p.Elem()).(*types.Named)
+			return ok && n.Obj().Name() == "Generator" && n.Obj().Pkg() == oa
+		}
+		n := 0
+		for _, fi := range w.Funcs {
+			if fi.Obj.Pkg() != oa {
+				continue
+			}
+			sig := fi.Obj.Type().(*types.Signature)
+			if sig.Recv() != nil || sig.Results().Len() == 0 || !isGen(sig.Results().At(0).Type()) {
+				continue
+			}
+			n++
+			for i := 0; i < sig.Params().Len(); i++ {
+				if pt := sig.Params().At(i).Type(); !valueLike(pt) {
+					probs = append(probs, fmt.Sprintf("%s takes a %s: a generator constructed from a shared mutable object can carry state from one service's document to the next (%s)", shortKey(fi.Obj), pt, w.pos(fi.Decl.Pos())))
+				}
+			}
+		}
+		if n == 0 {
+			probs = append(probs, "no constructor of openapiv3.Generator found")
+		}
+		// fields of Generator holding repository-declared mutable objects must be created inside the constructor: no
+		// package-level variable of a reference type in openapiv3 (c15.pure covers reads of package state in general)
+		if oa != nil {
+			for _, name := range oa.Scope().Names() {
+				v, ok := oa.Scope().Lookup(name).(*types.Var)
+				if !ok {
+					continue
+				}
+				switch v.Type().Underlying().(type) {
+				case *types.Map, *types.Pointer, *types.Slice, *types.Chan:
+					if !strings.HasPrefix(name, "E_") {
+						probs = append(probs, fmt.Sprintf("package-level variable openapiv3.%s has reference type %s", name, v.Type()))
+					}
+				}
+			}
+		}
+		return []OblResult{structResult("C15.openapi.isolated", "every constructor of openapiv3.Generator takes values only (basic types, descriptors) and the package has no package-level variable of a reference type: the documents of one invocation share no mutable object", probs)}
+	}
+}
+
 // ---------------------------------------------------------------------------------------
 // C17: ownership discipline of the emitted runtime (extracted packages).
 
